@@ -260,6 +260,10 @@ impl Oracle for FallbackKf {
                                         && !self.open.contains(h)
                                         && self.last_exec_rev.get(h).copied().unwrap_or(0) < cx.rev
                                         && cycles.iter().any(|s| s.contains(&p) && s.contains(h))
+                                        // the memo `h` is served from was itself computed as a
+                                        // cycle member (a memo from an acyclic revision is
+                                        // verified edge by edge and the cycle is found)
+                                        && self.scc_at_exec.get(h).map(|s| !s.is_empty()).unwrap_or(false)
                                     {
                                         self.tainted = true;
                                     }
